@@ -6,8 +6,9 @@ exit 2  harness error (lost seam, nondeterminism, invalid evidence) - never a pa
 import os, sys, json, time, argparse, hashlib, subprocess, importlib
 
 VERIF = os.path.dirname(os.path.dirname(os.path.abspath(__file__)))
-EVID = os.path.join(VERIF, "evidence")
-REPLAYS = os.path.join(VERIF, "replays")
+EVID = os.environ.get("MCX_EVIDENCE_DIR") or os.path.join(VERIF, "evidence")
+REPLAYS = os.path.join(os.environ["MCX_EVIDENCE_DIR"], "replays") if os.environ.get("MCX_EVIDENCE_DIR") else os.path.join(VERIF, "replays")
+REPO = os.environ.get("MCX_REPO") or "/repo"
 KNOWN = os.path.join(VERIF, "known_findings.json")
 
 LEVELS = {}
@@ -16,7 +17,7 @@ LEVELS = {}
 def repo_state():
     def sh(*a):
         try:
-            return subprocess.run(a, capture_output=True, text=True, cwd="/repo").stdout
+            return subprocess.run(a, capture_output=True, text=True, cwd=REPO).stdout
         except Exception:
             return ""
     head = sh("git", "rev-parse", "HEAD").strip()
